@@ -141,3 +141,32 @@ pub fn op_dumpir(req: &Value) {
     v["id"] = req["id"].clone();
     println!("{v}");
 }
+
+// ---------------------------------------------------------------- renderings (C16, C13)
+fn render<C: CellType>(req: &Value) -> Value {
+    let code = req["prog"].as_str().unwrap_or("");
+    let level = req["level"].as_u64().unwrap_or(0) as u32;
+    let prog = match ir::Program::<C>::parse(code) {
+        Ok(p) => p.optimize(level),
+        Err(e) => return json!({"error": format!("{:?}@{}", e.kind, e.position)}),
+    };
+    let text = match req["kind"].as_str().unwrap_or("ir") {
+        "ir" => format!("{prog:?}"),
+        "bc" => format!("{:?}", bc::CodeGen::translate(&prog, 2, true)),
+        "jitbc" => format!("{:?}", bc::CodeGen::translate(&prog, 12, false)),
+        _ => String::new(),
+    };
+    json!({"text": text})
+}
+
+/// `{"op":"render","kind":"ir"|"bc"|"jitbc","prog","w","level"}`: what the library prints
+pub fn op_render(req: &Value) {
+    let mut v = match req["w"].as_u64().unwrap_or(8) {
+        8 => render::<u8>(req),
+        16 => render::<u16>(req),
+        32 => render::<u32>(req),
+        _ => render::<u64>(req),
+    };
+    v["id"] = req["id"].clone();
+    println!("{v}");
+}
